@@ -29,21 +29,25 @@ from lib.core import Result, f2b, b2f
 
 READY = True
 MANIFEST = dict(
-    text='Proof (Lean 4): the Moore-Penrose relation determines the variance-covariance matrix (C08.pinv_unique, all n, singular or not; '
-    'pinv_inverse, pinv_neg, varcovar_symm); each of the classical/robust/bootstrap families is closed: p = 2(1-Phi|t|) of that family\'s t, '
-    't = estimate/se, se = sqrt of that family\'s variance, with the code\'s special cases (family_closed, family_regular, family_special); '
-    'the matrix product D^-1 V D^-1 equals V_ij/(sqrt V_ii sqrt V_jj), unit diagonal, symmetry (corr_matrix_form, corr_diag_one, corr_symm); '
-    'pair test formula and antisymmetry; robust = V B V symmetric with non-negative variances for PSD B; sample covariance definition; '
-    'LR/rho2/rhobar2/AIC/BIC formulas; every cell of the parameter, correlation, general-statistics and compiled tables is the quantity its label names '
-    '(table_labels_*, finite label grammar, all layouts, formatted or not); likelihood-ratio test roles/statistic/df/refusal. '
+    text='Proof (Lean 4): the Moore-Penrose relation determines the variance-covariance matrix and hence the whole report (C08.pinv_unique, all n, singular or not; '
+    'report_deterministic, pinv_inverse, pinv_neg, varcovar_symm); each of the classical/robust/bootstrap families is closed: p = 2(1-Phi|t|) of that family\'s t, '
+    't = estimate/se, se = sqrt of that family\'s variance, with the code\'s special cases (family_closed, family_regular, family_special, pvalue_shape); '
+    'the matrix product D^-1 V D^-1 equals V_ij/(sqrt V_ii sqrt V_jj), unit diagonal, symmetry, |corr| <= 1 for the robust (PSD BHHH) and bootstrap families '
+    '(corr_matrix_form, corr_diag_one, corr_symm, correlation_range); pair test formula and antisymmetry; robust = V B V symmetric with non-negative variances; '
+    'sample covariance definition, symmetry, non-negative variances; LR/rho2/rhobar2/AIC/BIC formulas; every cell of the parameter, correlation, general-statistics and compiled '
+    'tables is the quantity its label names (table_labels_*, finite label grammar, all layouts, formatted or not), rendered labels are distinct (labels_distinct; '
+    'compiled_labels_unambiguous_partial under a guard on parameter names, with a collision witness without it); likelihood-ratio test roles/statistic/df/refusal '
+    '(lr_refusal, lr_decision, lr_reject; lr_symmetric_partial with a witness that the order matters on ties). '
     'Tie: correspondence on real RawResults/bioResults objects built from generated raw outcomes (K=1..6, negative definite/singular/NaN/indefinite Hessians, '
-    'with/without null likelihood and bootstrap, active bounds) and on real estimations; every attribute and table cell compared.',
+    'with/without null likelihood and bootstrap, active bounds) and on real estimations with bootstrap; every attribute and every table cell compared; '
+    'tools.likelihood_ratio_test and bioResults.likelihood_ratio_test over generated pairs.',
     design='DESIGN.md §5 C08',
     technique='Lean 4 theorems over an executable NumOps model (Float in the driver, R in the proofs) + differential correspondence with real bioResults objects + independent numpy oracle',
     note='Partial: LAPACK (pinv/eigh/svd/inv), scipy Phi and chi-square quantile, numpy cov/dot and str.format are trusted; the pseudo-inverse is relational '
-    '(four Penrose equations checked numerically on every case); theorems are over R, the driver runs on IEEE doubles (tolerances stated). '
-    'Uniqueness of rendered row labels of the compiled table is assumed (parameter names not ending in " (std)"/" (ttest)" and different from statistic labels). '
-    'Known finding F-C08-1: a one-parameter model with bootstrap makes np.cov return a 0-d array and bioResults raises IndexError.',
+    '(four Penrose equations checked numerically on every case, by the driver and by numpy); theorems are over R, the driver runs on IEEE doubles (tolerances stated). '
+    'Row labels of the compiled table are unambiguous only for parameter names that are not statistic labels and do not end in " (std)"/" (ttest)" (proved; collision witness otherwise). '
+    'The likelihood-ratio test depends on the order of its arguments when the likelihoods or the numbers of parameters are equal (proved witness; not part of the statement). '
+    'Known finding F-C08-1: a one-parameter model with bootstrap makes np.cov return a 0-d array and bioResults raises IndexError (patch in proposed_fixes/F-C08-1.diff).',
 )
 
 TRUSTED = [
